@@ -196,7 +196,12 @@ def fixed_corpus():
     f, g, h = e2.sf
     F, G, H = e2.vf
     c = Constant('c')
+    from sympde.topology import ScalarFunctionSpace, element_of
+    gl = element_of(ScalarFunctionSpace('VLk2', e2.domain, kind='l2'), name='glk2')
     return [
+        (e2, 'div', (2 * gl * F,), 'corpus:div(2*g*F) g in L2'),
+        (e2, 'convect', (F, f * G), 'corpus:convect(F,f*G)'),
+        (e2, 'convect', (2 * g * F, 3 * c * e2.coords[0] * G + f * H), 'corpus:convect(2*g*F,3*c*x*G+f*H)'),
         (e2, 'div', (2 * f * F,), 'corpus:div(2*f*F)'),
         (e2, 'div', (c * f * F,), 'corpus:div(c*f*F)'),
         (e2, 'grad', (f ** g,), 'corpus:grad(f**g)'),
